@@ -63,6 +63,8 @@ def oracle(ctx, label, data, o, names):
                   "vm_events": [str(e)[:120] for e in o.ref_log.events[:4]]}
     if not agg.case(ch, nontrivial, sample):
         return
+    if o.ref_ok and not o.fick_ok and o.parse_err is None and o.fick_stage in ("interpret", "unparse"):
+        retry_after_refusal(ctx, label, data, o, names)
     if not (o.ref_ok and o.fick_ok):
         return
     if o.exec_err is not None:
@@ -90,6 +92,41 @@ def oracle(ctx, label, data, o, names):
         agg.violation(f"unmodelled-op-accepted:{o.lock_div['op']}",
                       "opcode changed the VM's stack/memo, was a no-op for fickling, and decompilation succeeded",
                       diffrun.witness(label, data, names, decompile=o.src[:600], lockstep=o.lock_div))
+
+
+def retry_after_refusal(ctx, label, data, o, names):
+    """A refusal must stay a refusal: asking the same parsed object again (after catching the error)
+    must not yield a 'successful' decompile with the unmodelled operation left out."""
+    import ast
+    f = de.fickle()
+    agg = ctx.agg
+    agg.count("refusals_retried")
+    p = f.Pickled.load(data)
+    src = None
+    for attempt in range(3):
+        try:
+            src = ast.unparse(p.ast)
+            break
+        except RecursionError:
+            return
+        except Exception:
+            try:
+                p.properties          # the other public way into the same interpretation
+            except Exception:
+                pass
+            continue
+    if src is None:
+        return
+    try:
+        log, _val, _g = refvm.exec_decompiled(src)
+        missing = refvm.missing_events(o.ref_log, log)
+    except Exception:
+        missing = [("exec-failed", None)]
+    if missing:
+        agg.violation("refusal-not-stable:decompiled-on-retry",
+                      "decompilation first refused this pickle, then - asked again on the same object - returned a "
+                      "program from which calls/imports of the VM are missing",
+                      diffrun.witness(label, data, names, decompile=src[:600], missing_event=str(missing[0][0])[:200]))
 
 
 def run_shard(ctx):
